@@ -243,4 +243,31 @@ PROPS = {
         required_counters=["multi_frame_cycles", "variant.tx_rx", "variant.tx_rx_sync_system_time", "variant.tx_rx_dc", "frames"],
         runs=[native("cycle-release", "c07", "release"), native("cycle-debug", "c07", "debug", args={"scale-pct": dict(quick=15, thorough=3)})],
     ),
+
+    "C15": dict(
+        level="exploration",
+        engine="simnet",
+        technique="runtime monitoring against a simulated CoE server with an object dictionary (ETG.1000.6 5.6.2): sdo_read/sdo_write/sdo_read_array/sdo_write_array results are compared with the dictionary, the device-side log of downloads and the mailbox counters the device saw",
+        level_text=("Sessions of 3..10 operations on one device: uploads of objects of 0..512 bytes into destinations of 1..512 bytes (equal, larger, smaller) over read mailboxes of 16..1024 bytes in expedited, normal, forced-normal and segmented mode with chosen initiate/segment payload lengths (incl. 1..6 byte last segments), typed destinations u8/u16/u32/u64/[u16;4]/String<10>, expedited downloads of 1..4 bytes, every listed abort code for reads and writes, emergency messages, answers for a different object, array helpers, stale content in the out-mailbox. "
+                    "Held = exact bytes, TooLong for oversize normal/segmented objects, Aborted with the device's code and object, Emergency with code/register, SdoResponseInvalid for foreign answers, exactly one download with the right index/sub-index/bytes, counters cycling 1..7."),
+        level_note="The CoE server follows ETG.1000.6 (the initiate response of a segmented upload carries the first mailbox-16 bytes; upload segment responses have command specifier 0). Downloads above 4 bytes are refused by ethercrab (documented) and not generated.",
+        rule="case = one session (mailbox sizes + operation list + data); all non-trivial; distinct by scenario hash",
+        assumptions=[],
+        min_distinct=dict(quick=300, thorough=30000),
+        required_counters=["op.read:expedited", "op.read:normal", "op.read:segmented", "op.write", "op.abort", "op.emergency", "op.wrong-object", "op.read-array", "op.write-array", "op.stale-out-mailbox", "read_mbx.16"],
+        runs=[native("coe-release", "c15", "release"), native("coe-debug", "c15", "debug", args={"scale-pct": dict(quick=30, thorough=5)})],
+    ),
+    "C16": dict(
+        level="exploration",
+        engine="simnet",
+        technique="runtime monitoring with catch_unwind, a bound on mailbox reads / virtual time, and a non-interference (two-run canary) monitor for out-of-bounds reads, around every SDO / SDO-info entry point against a device whose mailbox is a byte script; debug and release builds; big-stack worker threads so that a stack overflow cannot pass as a verdict",
+        level_text=("Thousands of scripted replies per run: expedited/normal/segmented-initiate/segment/abort/emergency/SDO-info/download responses and random bytes, then field-mutated (mailbox length over its full range and at edges, type nibble, counter, CoE service, command bits, object, complete size, truncation at every length, random byte), read mailboxes of 6..1024 bytes, 1..3 replies cycled, optionally refilled forever, for sdo_read (u32 and [u8;64]), sdo_write, sdo_info_object_description_list and sdo_info_object_quantities. "
+                    "Held = no panic, no abort, the call ends within 70000 mailbox reads, and the outcome does not depend on canary bytes placed in stale frame slot contents."),
+        level_note="'Ends' is restated as: returns within 70000 mailbox reads (the protocol's fragment counter is 16 bit). Bytes of the mailbox buffer beyond the scripted message belong to the datagram ethercrab asked for and are kept identical in both canary runs.",
+        rule="case = (entry point, mailbox size, scripted replies); distinct by scenario hash",
+        assumptions=[],
+        min_distinct=dict(quick=2000, thorough=200000),
+        required_counters=["entry.sdo_read_u32", "entry.sdo_write", "entry.sdo_info_list", "entry.sdo_info_quantities", "reply.mutated", "reply.emergency", "reply.segment", "device_refills_forever", "outcome.value", "outcome.error"],
+        runs=[native("mbx-release", "c16", "release"), native("mbx-debug", "c16", "debug", args={"scale-pct": dict(quick=40, thorough=10)})],
+    ),
 }
